@@ -307,6 +307,17 @@ void tbbrt_config(int workers, int concurrency) {
   tbb::detail::r1::g_workers = workers < 1 ? 1 : workers;
   tbb::detail::r1::g_concurrency = concurrency < 1 ? 1 : concurrency;
 }
+// forget everything about the previous execution (in-process exploration)
+void tbbrt_reset(void) {
+  using namespace tbb::detail::r1;
+  for (auto& s : slots) {
+    s.pool.clear();
+    s.isolation = 0;
+  }
+  g_started = g_shutdown = false;
+  g_nworker_threads = 0;
+  g_steals = g_tasks = g_spawns = 0;
+}
 // must be called by the main thread at the end of an execution under the scheduler
 void tbbrt_shutdown(void) {
   using namespace tbb::detail::r1;
